@@ -1,4 +1,109 @@
-import AsyncVerif.Proofs.Core
+import AsyncVerif.Proofs.Release
+/-!
+# C04 — owned async iterators are released when a tool finishes, fails or is closed
+
+`Released src` : an async generator source is closed, exhausted or finished by its own failure; a
+class-based source with `aclose` had `aclose()` called or delivered `StopAsyncIteration`.
+Every theorem is for **every world**: every input, every fault script of sources and callables,
+every consumer behaviour (exhaust, close after any number of items, throw after any number of items).
+The only proviso is that the model did not run out of fuel (fuel is a model artefact bounding loops;
+the correspondence runs show it is never hit with `fuel >` total script length).
+-/
 namespace AsyncVerif
-theorem C04_placeholder_true : True := trivial
+
+theorem C04_filter (fn : Option Nat) (s fuel : Nat) (w : World)
+    (h : (Impl.filter fn s fuel w).1 ≠ .error .outOfFuel) :
+    Released ((Impl.filter fn s fuel w).2.srcs s) := scopedIter_released s _ w h
+
+theorem C04_filterfalse (fn : Option Nat) (s fuel : Nat) (w : World)
+    (h : (Impl.filterfalse fn s fuel w).1 ≠ .error .outOfFuel) :
+    Released ((Impl.filterfalse fn s fuel w).2.srcs s) := scopedIter_released s _ w h
+
+theorem C04_enumerate (s : Nat) (start : Int) (fuel : Nat) (w : World)
+    (h : (Impl.enumerate s start fuel w).1 ≠ .error .outOfFuel) :
+    Released ((Impl.enumerate s start fuel w).2.srcs s) := scopedIter_released s _ w h
+
+theorem C04_takewhile (f s fuel : Nat) (w : World)
+    (h : (Impl.takewhile f s fuel w).1 ≠ .error .outOfFuel) :
+    Released ((Impl.takewhile f s fuel w).2.srcs s) := scopedIter_released s _ w h
+
+theorem C04_dropwhile (f s fuel : Nat) (w : World)
+    (h : (Impl.dropwhile f s fuel w).1 ≠ .error .outOfFuel) :
+    Released ((Impl.dropwhile f s fuel w).2.srcs s) := scopedIter_released s _ w h
+
+theorem C04_starmap (f s fuel : Nat) (w : World)
+    (h : (Impl.starmap f s fuel w).1 ≠ .error .outOfFuel) :
+    Released ((Impl.starmap f s fuel w).2.srcs s) := scopedIter_released s _ w h
+
+theorem C04_accumulate (fn : Option Nat) (initial : Option Val) (s fuel : Nat) (w : World)
+    (h : (Impl.accumulate fn initial s fuel w).1 ≠ .error .outOfFuel) :
+    Released ((Impl.accumulate fn initial s fuel w).2.srcs s) := scopedIter_released s _ w h
+
+/-- valid parameters (`n ≥ 1`): the `ValueError` for `n < 1` is raised before the iterable is touched -/
+theorem C04_batched (n : Nat) (hn : 1 ≤ n) (strict : Bool) (s fuel : Nat) (w : World)
+    (h : (Impl.batched n strict s fuel w).1 ≠ .error .outOfFuel) :
+    Released ((Impl.batched n strict s fuel w).2.srcs s) := by
+  have hn' : ¬ n < 1 := by omega
+  unfold Impl.batched at h ⊢
+  simp only [hn', if_false] at h ⊢
+  exact scopedIter_released s _ w h
+
+theorem C04_islice (s start : Nat) (stop : Option Nat) (step fuel : Nat) (w : World)
+    (h : (Impl.islice s start stop step fuel w).1 ≠ .error .outOfFuel) :
+    Released ((Impl.islice s start stop step fuel w).2.srcs s) := scopedIter_released s _ w h
+
+theorem C04_pairwise (s fuel : Nat) (w : World)
+    (h : (Impl.pairwise s fuel w).1 ≠ .error .outOfFuel) :
+    Released ((Impl.pairwise s fuel w).2.srcs s) := scopedIter_released s _ w h
+
+theorem C04_all (s fuel : Nat) (w : World) (h : (Impl.all s fuel w).1 ≠ .error .outOfFuel) :
+    Released ((Impl.all s fuel w).2.srcs s) := scopedIter_released s _ w h
+
+theorem C04_any (s fuel : Nat) (w : World) (h : (Impl.any s fuel w).1 ≠ .error .outOfFuel) :
+    Released ((Impl.any s fuel w).2.srcs s) := scopedIter_released s _ w h
+
+theorem C04_zip (srcs : List Nat) (fuel : Nat) (w : World)
+    (h : (Impl.zip srcs fuel w).1 ≠ .error .outOfFuel) :
+    ∀ s ∈ srcs, Released ((Impl.zip srcs fuel w).2.srcs s) := by
+  unfold Impl.zip at h ⊢
+  split
+  · rename_i he; intro s hs; cases srcs <;> simp_all
+  · rename_i he; simp only [he] at h; exact tryFinally_closeAll_released srcs _ w h
+
+theorem C04_zip_strict (srcs : List Nat) (fuel : Nat) (w : World)
+    (h : (Impl.zipStrict srcs fuel w).1 ≠ .error .outOfFuel) :
+    ∀ s ∈ srcs, Released ((Impl.zipStrict srcs fuel w).2.srcs s) := by
+  unfold Impl.zipStrict at h ⊢
+  split
+  · rename_i he; intro s hs; cases srcs <;> simp_all
+  · rename_i he; simp only [he] at h; exact tryFinally_closeAll_released srcs _ w h
+
+theorem C04_map (f : Nat) (srcs : List Nat) (fuel : Nat) (w : World)
+    (h : (Impl.map f srcs fuel w).1 ≠ .error .outOfFuel) :
+    ∀ s ∈ srcs, Released ((Impl.map f srcs fuel w).2.srcs s) := by
+  unfold Impl.map at h ⊢
+  split
+  · rename_i he; intro s hs; cases srcs <;> simp_all
+  · rename_i he; simp only [he] at h; exact tryFinally_closeAll_released srcs _ w h
+
+theorem C04_zip_longest (fillv : Val) (srcs : List Nat) (fuel : Nat) (w : World)
+    (h : (Impl.zipLongest fillv srcs fuel w).1 ≠ .error .outOfFuel) :
+    ∀ s ∈ srcs, Released ((Impl.zipLongest fillv srcs fuel w).2.srcs s) := by
+  unfold Impl.zipLongest at h ⊢
+  split
+  · rename_i he; intro s hs; cases srcs <;> simp_all
+  · rename_i he; simp only [he] at h; exact tryFinally_closeAll_released srcs _ w h
+
+/-- both iterators of `compress` (two nested scopes) -/
+theorem C04_compress (d sel fuel : Nat) (w : World)
+    (h : (Impl.compress d sel fuel w).1 ≠ .error .outOfFuel) :
+    Released ((Impl.compress d sel fuel w).2.srcs d) ∧ Released ((Impl.compress d sel fuel w).2.srcs sel) := by
+  refine ⟨scopedIter_released d _ w h, ?_⟩
+  unfold Impl.compress at h ⊢
+  obtain ⟨hw, hb⟩ := tryFinally_final _ (closeSrc d) w h
+  unfold scopedIter at hw hb ⊢
+  rw [hw]
+  apply closeSrc_preserves
+  exact scopedIter_released sel _ w hb
+
 end AsyncVerif
